@@ -773,3 +773,29 @@ def r10(rr, repo):
     plain = [n_ for n_ in walk_scope(ifn) if isinstance(n_, ast.Assign) and any(U(t) == 'self.read_idx' for t in n_.targets) and 'len(' in U(n_.value)]
     rr.ob("the constructor's default position is seek(('end', ..)), not an index past the list", len(first) == 1 and U(first[0].args[0]).replace('"', "'").startswith("('end',") and not plain, imod,
           first[0] if first else (plain[0] if plain else ifn), witness=(U(first[0])[:60] if first else '') + (f'; {U(plain[0])[:60]}' if plain else ''), key='default-position-end')
+
+
+@rule('C13.R11', "a reader that has not seen any file yet accepts every file a rescan finds: the 'nothing seen' value that refresh_logfiles compares file timestamps with lies below every timestamp a file name can "
+                 "encode - 0 is one of them (write(.., timestamp=0.0)), so 0 with a strict comparison skips that file for good")
+def r11(rr, repo):
+    mod, fn, _ = fn_paths(repo, 'refresh_logfiles')
+    cmps = [c for c in ast.walk(fn) if isinstance(c, ast.Compare) and len(c.ops) == 1 and U(c.comparators[0]) == 'old_timestamp' and U(c.left).endswith('.timestamp')]
+    rr.floor('comparisons of a file timestamp with the last one seen', len(cmps), 1, mod, fn)
+    sent = []
+    for n in walk_scope(fn):
+        if isinstance(n, ast.Assign):
+            tv = []
+            if len(n.targets) == 1 and isinstance(n.targets[0], ast.Tuple) and isinstance(n.value, ast.Tuple) and len(n.targets[0].elts) == len(n.value.elts):
+                tv = list(zip(n.targets[0].elts, n.value.elts))
+            else:
+                tv = [(t, n.value) for t in n.targets]
+            for t, v in tv:
+                if U(t) == 'old_timestamp':
+                    ok_c, val = Evaluator.const_of(v)
+                    if ok_c and isinstance(val, (int, float)) and not isinstance(val, bool):
+                        sent.append((val, n))
+    rr.floor("constant 'nothing seen yet' values of old_timestamp", len(sent), 1, mod, fn)
+    for val, n in sent:
+        for c in cmps:
+            strict = isinstance(c.ops[0], ast.Gt)
+            rr.ob("the 'nothing seen yet' value admits every file timestamp from 0 up", val < 0 or (val == 0 and not strict), mod, n, witness=f'old_timestamp = {val}, accepted iff {U(c)}', key='no-file-sentinel-below-zero')
